@@ -101,7 +101,7 @@ def correspondence(ctx):
                           ["scalar_id", name]))
     # dag: shortcut or adjoint
     for (h, u) in S:
-        cases.append(("dag", env(ah=h, au=u), (lambda h=h, u=u: mkobj(h, u).dag()), ["dag", h, u]))
+        cases.append(("dag", env(ah=h, au=u, ps=True), (lambda h=h, u=u: mkobj(h, u).dag()), ["dag", h, u]))
     exprs = []
     for site, e, _, _ in cases:
         if site == "dag":
